@@ -25,15 +25,15 @@ type Violation struct {
 
 // Stats are accumulated per worker and merged by the parent.
 type Stats struct {
-	Evaluations int            `json:"evaluations"` // entry-point executions
-	Scenarios   int            `json:"scenarios"`
-	Nontrivial  int            `json:"nontrivial"`
-	SeamEvents  int64          `json:"seam_events"`
-	Faults      map[string]int `json:"faults"`
-	Probes      map[string]int `json:"probes"`
-	Keys        []uint64       `json:"keys"`   // distinct coverage keys among non-trivial scenarios
-	Fields      []uint32       `json:"fields"` // (mesg<<8|field) profile entries reached
-	Sched       []uint64       `json:"sched"`  // distinct interleavings (conc)
+	Evaluations int               `json:"evaluations"` // entry-point executions
+	Scenarios   int               `json:"scenarios"`
+	Nontrivial  int               `json:"nontrivial"`
+	SeamEvents  int64             `json:"seam_events"`
+	Faults      map[string]int    `json:"faults"`
+	Probes      map[string]int    `json:"probes"`
+	Keys        []uint64          `json:"keys"`   // distinct coverage keys among non-trivial scenarios
+	Fields      []uint32          `json:"fields"` // (mesg<<8|field) profile entries reached
+	Sched       []uint64          `json:"sched"`  // distinct interleavings (conc)
 	Samples     []json.RawMessage `json:"samples"`
 
 	keys   map[uint64]struct{}
@@ -97,6 +97,12 @@ func (s *Stats) Observe(r *Result) {
 			s.Fault("fail.with_data")
 		} else {
 			s.Fault("fail.sticky")
+		}
+	}
+	for _, sz := range r.WriteSz {
+		if sz == 0 && r.Call == "Encode" && r.ErrClass == "io:sim" {
+			s.Fault("write.fail")
+			break
 		}
 	}
 }
